@@ -39,12 +39,26 @@ def engine_rows(ctx, res, stats):
             if rep % 2 == 1:
                 pop.reverse()
             df = popgen.to_frame(pop)
+            dbg = rep % 2 == 1      # debug mode: the result also shows each row's inputs; the rules are re-applied to the inputs SHOWN in the row
             try:
-                out, _ = engine.simulate(df, o, targets=nodes, rounding=False)
+                out, _ = engine.simulate(df, o, targets=nodes, rounding=False, debug=dbg)
+            except engine.ResultShapeError as ex:
+                res.add_violation("shape", f"on {impl.iso(o)} (debug={dbg}) {ex}", dict(kind="shape", date=impl.iso(o), debug=dbg, error=str(ex)), True)
+                continue
             except Exception as ex:  # noqa: BLE001
                 stats["skipped"][f"{impl.iso(o)}#{rep}"] = f"{type(ex).__name__}: {str(ex)[:100]}"
                 continue
             cols = {c: df[c].to_numpy() for c in df.columns}
+            if dbg:
+                stats["debug_runs"] = stats.get("debug_runs", 0) + 1
+                for c in df.columns:
+                    if c in out.columns and c not in nodes:
+                        a, b = out[c].to_numpy(), df[c].to_numpy()
+                        if a.dtype != b.dtype or not metam.col_equal(a, b):
+                            res.add_violation(f"echo:{c}", f"debug mode on {impl.iso(o)}: the input column {c} shown in the result differs from the input "
+                                              f"(dtype {a.dtype} vs {b.dtype}; {metam.first_diff(a, b, list(df['p_id'])) if a.dtype == b.dtype else ''})",
+                                              dict(kind="echo", date=impl.iso(o), column=c, shown_dtype=str(a.dtype), input_dtype=str(b.dtype)), True)
+                            break
             cols.update({c: out[c].to_numpy() for c in out.columns})
             for n in nodes:
                 nd = d["nodes"][n]
